@@ -46,7 +46,13 @@ def r5_registry(run, tree):
     check_registry(run, tree)
 
 
-RULES = [r1_table, r2_strict_conversion, r3_bool_dimensionless, r4_end_to_end, r5_registry]
+def r6_operands(run, tree):
+    run.rule("C07.R6", "both operands reach the comparison function as their buffers (also a 0-d Array: not as a python scalar, which numpy would compare in the other "
+             "operand's dtype), other operand kinds unchanged (shared with C02/C10)", "D7 fold of _wrap_numpy over operand kinds", "", floor=5)
+    af.check_wrap_numpy_fold(run, tree, want=("operands",))
+
+
+RULES = [r1_table, r2_strict_conversion, r3_bool_dimensionless, r4_end_to_end, r5_registry, r6_operands]
 
 
 def t_pair_space(run, tree):
